@@ -407,12 +407,13 @@ def parentPath (p : Bytes) : Bytes :=
 def verifyUpload (e : Env) (uuid : Bytes) (sofar : List Touch) (k : List Touch → Plan) : Plan :=
   withPath (uploadInfoPath e uuid) sofar fun info => k (sofar ++ [rd info])
 
-/-- `delete_objects`: every key is resolved (and probed) before the first removal; in between the bucket directory is
-    probed (0f31b61: `NoSuchBucket`) -/
-def deleteObjectsPlan (e : Env) (b : Bytes) : List Bytes → List Touch → List Bytes → Plan
-  | [], acc, paths => withPath (getBucketPath e b) acc fun bp => .ok (acc ++ [rd bp] ++ paths.map rm)
-  | k :: rest, acc, paths =>
-    withPath (getObjectPath e b k) acc fun p => deleteObjectsPlan e b rest (acc ++ [rd p]) (paths ++ [p])
+/-- `delete_objects`: every key is resolved before anything is touched; then the bucket directory is probed (0f31b61:
+    `NoSuchBucket`); then each path in turn is probed and, when something is there, removed (7d30be5: a key that does not
+    exist, or that an earlier item of the request removed, is skipped) -/
+def deleteObjectsPlan (e : Env) (b : Bytes) : List Bytes → List Bytes → Plan
+  | [], paths => withPath (getBucketPath e b) [] fun bp => .ok (rd bp :: paths.flatMap fun p => [rd p, rm p])
+  | k :: rest, paths =>
+    withPath (getObjectPath e b k) [] fun p => deleteObjectsPlan e b rest (paths ++ [p])
 
 /-- the validation loop of `complete_multipart_upload` (0096ef4: before anything is changed): part numbers `1, 2, 3, …`
     ("invalid part order" otherwise), every part file is probed; the touches so far and the part paths, or the plan that
@@ -452,7 +453,7 @@ def plan (e : Env) (enc : Bytes → Bytes) : Op → Plan
     withPath (getObjectPath e b k) [] fun p =>
     withPath (getBucketPath e b) [rd p] fun bp => .ok [rd p, rd bp, ⟨.list, .path p⟩, rm p]
   | .deleteObjects b ks =>
-    deleteObjectsPlan e b ks [] []
+    deleteObjectsPlan e b ks []
   | .copyObject ap sb sk b k =>
     if ap then .fail [] .notImplemented else
     withPath (getObjectPath e sb sk) [] fun src =>
